@@ -680,7 +680,9 @@ func runInternalFull(f *fixture, cl *client, c *icase) (*fullObs, http.Header, e
 	// the reported body is truncated; the complete one is kept for judging
 	id := strconv.FormatInt(atomic.AddInt64(&reqCounter, 1), 10)
 	var b bytes.Buffer
-	fmt.Fprintf(&b, "%s %s HTTP/1.1\r\nHost: 127.0.0.1:%d\r\nX-Req-Id: %s\r\n", c.Method, c.target(), f.port, id)
+	// Accept-Encoding is set by the client: otherwise net/http's transport inside the proxy asks for gzip
+	// on its own and swallows the (labelled, not really compressed) bodies of the dropped responses
+	fmt.Fprintf(&b, "%s %s HTTP/1.1\r\nHost: 127.0.0.1:%d\r\nX-Req-Id: %s\r\nAccept-Encoding: gzip\r\n", c.Method, c.target(), f.port, id)
 	if g := graphText(c.Graph); g != "" {
 		fmt.Fprintf(&b, "X-Graph: %s\r\n", g)
 	}
